@@ -17,7 +17,9 @@ arg   = [0, labels] Name | [1, labels] str name | [2, rds] Rdataset | [3, labels
         | [5, [rdtype, covers, body, aux, rdclass]] Rdata | [6, rdtype] type as text | [7] None
 rds   = [rdtype, covers, ttl, [[body, aux]...], rdclass]
 obs   = per txn [ [op results...], [len(zone.nodes), [node or None per probe]],
-                  [per probe: is zone.get_node(probe) the same object as before the txn (None if absent)] ]
+                  [per probe: is zone.get_node(probe) the same object as before the txn (None if absent)],
+                  [per probe: None if absent, else per rdataset of the node [same object as the rdataset of that
+                   (type, covers) in the node before the txn (None if there was none), is ImmutableRdataset]] ]
 """
 import base64
 import itertools
@@ -331,16 +333,27 @@ def run_case(case, full=False):
     out = []
     for mode, style, ops, fault in hist:
         before = node_objects(z, probes)
+        before_rds = [({} if b is None else {(int(r.rdtype), int(r.covers)): r for r in reversed(list(b.rdatasets))}) for b in before]
         if full:
             old_objs = all_node_objects(z)
             old_dumps = [dump_node(n) for n in old_objs]
         res = run_txn(z, mode, style, ops, fault)
         after = node_objects(z, probes)
         ident = [None if (b is None or a is None) else int(a is b) for b, a in zip(before, after)]
-        o = [res, observe(z, probes)] + ([ident] if idobs else [])
+        rident = []
+        for b, a in zip(before_rds, after):
+            if a is None:
+                rident.append(None)
+                continue
+            l = []
+            for r in a.rdatasets:
+                old = b.get((int(r.rdtype), int(r.covers)))
+                l.append([None if old is None else int(old is r), int(isinstance(r, dns.rdataset.ImmutableRdataset))])
+            rident.append(l)
+        o = [res, observe(z, probes)] + ([ident, rident] if idobs else [])
         if full:
             if not idobs:
-                o.append(ident)
+                o += [ident, rident]
             o.append(full_dump(z))
             # the node objects of the previously published zone, as they are now
             o.append(int([dump_node(n) for n in old_objs] == old_dumps))
@@ -355,7 +368,7 @@ def impl(case):
     full = run_case(case, full=True)
     _full.clear()
     _full[repr(case)] = full
-    n = 3 if (len(case[0]) <= 3 or case[0][3]) else 2
+    n = 4 if (len(case[0]) <= 3 or case[0][3]) else 2
     return [t[:n] for t in full]
 
 
@@ -685,8 +698,8 @@ def oracle(ctx, kind, case, out):
                      sig="result", txn=i, op=j, op_kind=(ops[j][0] if j < len(ops) else -1))
                 bad = True
                 break
-        after = full[i][3]
-        if not full[i][4]:
+        after = full[i][4]
+        if not full[i][5]:
             fail(f"a node object of the published zone was mutated in place ({tag})", sig="aliasing", txn=i)
             bad = True
         if after != ref.dump():
